@@ -34,7 +34,7 @@ _add(
 _add(
     "C02",
     rule="records N in {1,2,3,4,5,8} x dt in {1,0.5,0.1,1.3} x every pointer; select/insert calls with times constructed as k*dt+delta (delta in {0, +-tol/2, +-2tol (1e-9 when tol=0), dt/4, dt/2, 3dt/4, dt-2tol}), scalar / tensor / tensor-with-extra-dim times, per-element mixed on/off-grid, offsets 0..N, tol in {0,1e-6,1e-3}, spy and every shipped interpolation/extrapolation, in-place or not, plus out-of-range calls; one evaluation = one select/insert call judged (spy arguments, value, all slots). distinct = (op, mode, N, dt, tol, grid class, range edge, offset class, function, dtype, inplace) abstractions.",
-    required=["select_calls", "insert_calls", "oor_calls", "spy_interp_args_checked", "spy_extrap_args_checked", "roundtrips", "adjusted_extrapolations", "scalar_tensor_agreements", "expected_errors_seen", "nonfloat_storage_selects", "nonfloat_elapsed_checked", "inserts_of_observations_in_another_dtype"],
+    required=["select_calls", "insert_calls", "oor_calls", "spy_interp_args_checked", "spy_extrap_args_checked", "roundtrips", "adjusted_extrapolations", "scalar_tensor_agreements", "expected_errors_seen", "nonfloat_storage_selects", "nonfloat_elapsed_checked", "inserts_of_observations_in_another_dtype", "ongrid_inserts_over_nonfinite_slots"],
     floor={"quick": 300, "thorough": 1500},
     text="Held on every select/insert call explored: times are constructed from an integer step and a symbolic offset so the oracle knows the slot, grid membership, bracketing samples and elapsed time; a spy interpolation/extrapolation records the arguments the real code passes, every slot of storage is compared after each insert, scalar and tensor forms are cross-checked and range errors are demanded.",
     technique="runtime monitoring: argument-spy oracle + list-model comparison on the real RecordTensor.select/insert over generated on/off-grid times",
